@@ -62,6 +62,9 @@ CHECKS['C20'] = ('translation_validation', 'mirsym on two MIR dumps (std / alloc
 CHECKS['C05'] = ('model_checking', 'mirsym: closed-form f64 terms of get_position / cpr_nl from symbolic execution of the MIR; z3 QF_FP/QF_BV queries per sub-claim; mpmath enclosures for the NL thresholds',
                  'Decided: parity rule and panic-freedom for all inputs (bit-vector); the 58 NL transition latitudes (each within 1e-7 deg of the Annex formula) and the zone count in each of the 59 zones for every f64 latitude; existence of returned positions with latitude outside [-90,90] and of returned positions for pairs in different NL zones (known findings, witnesses replayed natively). Thorough adds the longitude range and the fmod side condition under a 900 s cap. Accuracy vs. the true position and re-encoding consistency are outside the claim.', '§2 C05')
 
+CHECKS['C11'] = ('model_checking', 'mirsym: symbolic execution of <Frame as Display>::fmt on every decode path (output = literal/value segments) + z3: branch conditions and printed values equal the per-type template',
+                 'For each of the ~46 000 rendering paths (every renderer branch of every frame type) the literal skeleton must be a template alternative and the solver proves the path condition implies that alternative\'s condition and that every printed value term equals the decoded field the template names; non-empty report for every type but DF19.', '§2 C11')
+
 NOT_APPLICABLE = [
     ('C16', 'socket I/O, read timeouts and stream segmentation are environment behaviour inline in main(); no unit a solver can execute'),
     ('C17', 'pty/raw-mode/TUI event histories through crossterm + ratatui and threads; outside Kani and the MIR executor'),
@@ -69,7 +72,6 @@ NOT_APPLICABLE = [
 ]
 
 PENDING = {
-    'C11': 'check under construction (Display templates); not claimed yet',
 }
 
 
